@@ -12,6 +12,7 @@ PID = "C08"
 LEVEL = "fault_enumeration"
 
 PRELUDE = [
+    "(define kept #f)", "(define keptv (vector 0))",
     "(define g1 0)", "(define vv (vector 0 0 0))", "(define lit '#(1 2 3))",
     "(define (f2 a b) (+ a b))", "(define (fr a . r) (cons a r))", "(define (f0) 7)",
     "(define (id x) x)",
@@ -64,7 +65,7 @@ class FG:
         if fault == "arity":
             return r.choice([
                 ([S("lambda"), [S("a")], S("a")], [t(1), 2]), ([S("lambda"), [], 1], [t(1)]), ([S("lambda"), [S("a"), S("b")], S("b")], [1, t(2), 3]),
-                (S("f2"), [t(1)]), (S("f2"), [t(1), 2, t(3)]), (S("f2"), []), (S("fr"), []), (S("f0"), [t(1)]),
+                (S("apply"), []), (S("f2"), [t(1)]), (S("f2"), [t(1), 2, t(3)]), (S("f2"), []), (S("fr"), []), (S("f0"), [t(1)]),
                 (S("car"), []), (S("car"), [q([1]), t(2)]), (S("cons"), [t(1)]), (S("vector-ref"), [S("vv")]), (S("not"), []),
                 ([S("lambda"), [S("a"), S("b")], S("a")], [t(1)]), ([S("lambda"), [S("a"), Sym("."), S("r")], S("a")], []) if False else (S("fr"), []),
                 (S("vector-set!"), [S("vv"), 0]), (S("eqv?"), [t(1)]), (S("list-tail"), [q([1, 2])]),
@@ -213,6 +214,12 @@ class FG:
         forms += pre
         defs, fexpr = self.in_context(ctx, fault)
         forms += defs
+        escaping = r.random() < 0.3
+        if escaping:
+            # the fault happens inside a procedure that has internal definitions and has let closures of its frame escape by assignment before
+            forms.append([S("define"), [S("risky"), S("seed")], [S("define"), S("n"), [S("+"), S("seed"), 1]], [S("define"), [S("peek")], S("n")],
+                          [S("set!"), S("kept"), [S("lambda"), [], [S("list"), S("n"), S("seed")]]], [S("vector-set!"), S("keptv"), 0, S("peek")], [S("list"), fexpr, S("n")]])
+            fexpr = [S("risky"), r.randint(10, 90)]
         u1, u2, u3 = r.randint(100, 199), r.randint(200, 299), r.randint(300, 399)
         forms.append([S("define"), S("before"), u1])
         # effects completed before the fault stay, effects after it never happen
@@ -228,6 +235,8 @@ class FG:
         forms.append(faulting)
         fault_index = len(forms) - 1
         forms.append([S("list"), S("g1"), [S("vector-ref"), S("vv"), 0], [S("vector-ref"), S("vv"), 1], S("before")])
+        if escaping:
+            forms.append(parse("(list (kept) ((vector-ref keptv 0)))"))
         forms.append(parse("(f2 (f0) (car (fr 1 2)))"))
         forms.append([S("define"), S("after"), [S("+"), S("before"), 1]])
         forms.append(S("after"))
